@@ -597,8 +597,8 @@ def n3(ctx, res):
         guard_ok = False
         for t, pol in gs:
             t0, p0 = strip_not(t, pol)
-            if R(t0) == cnt and p0:
-                guard_ok = True
+            if R(t0) in (cnt, f"self.seen[{o}.__name__]") and p0:
+                guard_ok = True  # a non-empty list is truthy: the same test as its length
             c = cmp_atom(t, pol)
             if c and (R(c[3]), c[1], c[2]) in ((cnt, ">", "0"), (cnt, "!=", "0"), (cnt, ">=", "1")):
                 guard_ok = True
